@@ -8,16 +8,98 @@ from pathlib import Path
 VERIF = Path(__file__).resolve().parents[1]
 
 # id -> (technique, level text, level note, design ref)
+E1 = "explicit-state BFS over histories of the real object vs reference model"
+E2 = "exhaustive enumeration of builder-call sequences (bounded depth) judged by a reference model"
+E3 = "exhaustive constructor-closure enumeration of terms vs reference semantics"
+E4 = "exhaustive finite-product enumeration vs reference model"
+
 CHECKS = {
+    "C01": (
+        E2 + " (R2 validator)",
+        "Every builder-call prefix of 8 scenario families (dataflow with nesting/Ext wires/order edges/partially used multi-output ops, "
+        "unit rows, conditionals+if/else, tail loops, CFGs with Dom wires and back edges, modules with calls / function values / "
+        "polymorphic and row-polymorphic callees) up to a free-call bound is executed on fresh real builders, completed by a "
+        "deterministic default continuation and the serialized HUGR is judged by an independent transcription of the reference "
+        "validator's rules. Well-formedness of a program is decided by the harness' own typing context, never by the code under test.",
+        "Trusted: mc/ref/validate.py + hugrjson.py (R2, transcribed from hugr-core validate.rs / ops/validate.rs / ops.rs / spec), the "
+        "harness typing context in mc/drivers/bpm.py. Bounded: call depth, nesting, row length, op alphabet (bundled std extensions).",
+        "DESIGN.md section 4 (C01), section 2 (E2), Appendix A",
+    ),
+    "C02": (
+        E2 + " composed with store-mutation histories; differential round-trip oracle",
+        "Every complete builder program of a reduced plan x every store-mutation history up to depth 1 (thorough 2) - delete leaf, add "
+        "attribute-rich nodes, order link, delete link, insert fragment, JSON metadata values, index reuse - is serialized, loaded and "
+        "re-serialized; documents are compared as JSON values and the observable structure through a hierarchy-only numbering.",
+        "Trusted: comparison code in mc/checks/c02.py; set-like arrays (runtime_reqs, extension sets) compared as sets.",
+        "DESIGN.md section 4 (C02)",
+    ),
+    "C03": (
+        E2 + " composed with store-mutation histories; published JSON schema + R2 port layout",
+        "Same state space as C02; every emitted HUGR/package/extension document is validated against the published strict schema, R2's "
+        "index rules, and the image of Hugr.links() under R2's port layout (static port after value inputs, order port after those).",
+        "Trusted: jsonschema + specification/schema/hugr_schema_strict_live.json; mc/ref/hugrjson.py port layout.",
+        "DESIGN.md section 4 (C03)",
+    ),
+    "C04": (
+        E1 + " (R1 port multigraph)",
+        "All histories of add_node/add_const/add_link/add_order_link/delete_link/delete_node/insert_hugr over <=3 (4) live nodes, <=3 links, "
+        "ports {0,1,order}, breadth-first to depth 5 with canonical-state deduplication; after every event every public query is compared "
+        "with a list-based port-multigraph model.",
+        "Trusted: mc/ref/portgraph.py, mc/drivers/store.py. Bounded by node/link caps and depth; listing order within a port not compared.",
+        "DESIGN.md section 4 (C04), section 2 (E1)",
+    ),
+    "C05": (
+        E3 + " + reference wire encoders + foreign documents",
+        "Every term of bounded grammars of types, params, args, values and all 21 op kinds (optional attributes set) is encoded, decoded "
+        "and re-encoded; compared exactly, against an independent reference encoder of the wire format, on derived facts (R3/R5) and "
+        "attribute-wise; sugar forms vs general forms; foreign documents (null-offset order edges, metadata, other encoder) through load+save.",
+        "Trusted: reference encoders in mc/drivers/terms.py / opterms.py (from the published schema), R3 table.",
+        "DESIGN.md section 4 (C05), section 2 (E3)",
+    ),
+    "C06": (
+        E3 + " (R3 signature table)",
+        "Every op class over all rows (len<=2/3) of a 5-type alphabet, all tags/variants, polymorphic and row-polymorphic Call/LoadFunc "
+        "with arity-changing instantiation x every port offset -1..n+1 in both directions: kind, type, signatures, num_out, nth rows.",
+        "Trusted: mc/drivers/opterms.py::ref_sig (R3, from specification/hugr.md and ops/dataflow.rs, ops/controlflow.rs).",
+        "DESIGN.md section 4 (C06), Appendix B",
+    ),
+    "C07": (
+        E3 + " (R5 bound calculus)",
+        "Every type of the bounded grammar, every extension type definition over params<=2(3) x explicit/from-params bounds over every index "
+        "list x every fitting argument list, TypeBound.join on all sequences up to length 4, std containers over every element type.",
+        "Trusted: mc/drivers/terms.py::ref_bound (20 lines).",
+        "DESIGN.md section 4 (C07)",
+    ),
+    "C14": (
+        E3 + " (R4 value typing on the serialized document)",
+        "Every value of the bounded value grammar (sums/tuples/options/eithers of extension constants, arrays of sums, function values, int "
+        "widths 0..6), built from lists and from one-shot iterators; the serialized document is typed by an independent reader and compared "
+        "with the reported type; Const/LoadConst ports carry that type.",
+        "Trusted: mc/ref/values.py (R4, from hugr-core ops/constant.rs).",
+        "DESIGN.md section 4 (C14)",
+    ),
+    "C16": (
+        E4 + " (range(n) semantics) + builder-handle census + add/delete histories",
+        "Every output count n<=6 (10) x every int, slice (start/stop in [-n-2,n+2], steps) and 2-tuple; handles without count; equality/hash "
+        "over handle variants; every builder call form over a row alphabet vs R3 output counts; all add_node/delete_node histories to depth 4 (5).",
+        "Trusted: Python's range(n) slicing; R3 output counts.",
+        "DESIGN.md section 4 (C16)",
+    ),
     "C18": (
-        "explicit-state BFS to fixpoint over the real BiMap vs set-of-pairs model",
+        E1 + " to fixpoint (set-of-pairs model)",
         "All reachable states of the real BiMap over a 4-letter (thorough: 5-letter) key/value alphabet "
         "with falsy members are enumerated to a fixpoint; from every state every operation with every argument is "
         "executed on the implementation and compared, query by query, with a set-of-pairs model; the constructor "
-        "is run on every mapping over the alphabet. Exhaustive inside the alphabet, so the right level for a "
-        "history-quantified property of a tiny data structure.",
+        "is run on every mapping over the alphabet.",
         "Trusted: the 30-line reference model in mc/checks/c18.py; alphabet of 4-5 hashable keys incl. 0, '', ().",
         "DESIGN.md section 4 (C18), section 2 (E1)",
+    ),
+    "C19": (
+        E4 + " (R7 write-replay model)",
+        "Every shot of <=3 (4) entries over 5 tags x 11 values (ints, bools, lists, non-bits) and every result of <=2 (3) shots over 8 "
+        "reference shots x 4 strictness settings, compared with a write-replay model.",
+        "Trusted: the R7 model in mc/checks/c19.py.",
+        "DESIGN.md section 4 (C19)",
     ),
 }
 
